@@ -6,12 +6,22 @@ for that property (taken from their own meta.json, i.e. nothing about the checks
 import glob, json, os, subprocess, sys
 rd = sys.argv[1]
 os.makedirs(rd, exist_ok=True)
-EXTRA = ("Prefer mechanisms a reviewer would be unlikely to think of first AND that differ in KIND from the list below: for example an "
+EXTRA_R4 = ("Prefer mechanisms a reviewer would be unlikely to think of first AND that differ in KIND from the list below: for example an "
          "interaction between two settings or two commands, behaviour that depends on the number or order of inputs (first/last element, empty "
          "collection, exactly one element, duplicates), numeric boundaries (float rounding, -0.0, very large/small values, integer vs float), "
          "dates and calendars (month/year ends, leap days, datetime vs date), text encodings and line endings (BOM, CRLF, tabs, trailing "
          "blanks), option defaults, early returns / `continue` / `break` on a rare branch, exception types caught too broadly or too narrowly, "
          "state kept on an object that outlives one use, or output formats/verbosity levels that are rarely used.")
+EXTRA = ("Prefer mechanisms that differ in KIND from everything listed below and that live on paths people rarely exercise: rarely used command-line "
+         "options and their combinations (--settings, --output, --format with each verbosity level, --category, --no-embedded-html, --limit, "
+         "TALLY_CONFIG), budgets spanning several years or several settings files, supplemental data sources, the interplay of views and rules, "
+         "files produced on Windows or by spreadsheets (CRLF, UTF-8 BOM, trailing delimiters, quoted numbers, tabs), very small inputs (one row, "
+         "one rule, empty file, header only) and very large ones, values at type boundaries (int vs float vs string, None vs empty, -0.0, NaN kept "
+         "out by validation), Python language traps (mutable defaults, late-binding closures, `is` vs `==`, truthiness of 0 / '' / [], chained "
+         "comparison, integer division, sort stability, dict ordering, generator exhaustion, shadowed names, except clauses that swallow too "
+         "much), or a helper shared by two features that is changed for the sake of one.")
+if len(sys.argv) > 2 and sys.argv[2] == 'r4':
+    EXTRA = EXTRA_R4
 for l in open('/verif/properties.jsonl'):
     d = json.loads(l)
     pid = d['id']
